@@ -21,6 +21,7 @@ RULE = (
     "disjointness, inside S, size bounds, names, contigs). Non-trivial = nested or overlapping baits after widening, or an access "
     "region partly consumed by a margin, or an untargeted contig; distinct = distinct case JSON."
 )
+CLI_SHARE = 4  # one case in CLI_SHARE also goes through the command line (vk/cli.py)
 QUICK = {"examples": 1200, "shards": 16, "budget_s": 300}
 THOROUGH = {"examples": 32000, "shards": 16, "budget_s": 2400}
 ASSUMPTIONS = [
